@@ -61,6 +61,8 @@ pub fn monthdays() -> Vec<Vec<MonthdayRange>> {
         vec![md_month(1, 1, None), md_single(fixed(None, 7, 14), o)],
         vec![md_range(fixed(None, 12, 31), o, fixed(None, 1, 1), o)],
         vec![md_range(fixed(Some(2020), 6, 1), o, fixed(None, 6, 1), o)], // 2020 Jun 01-Jun 01: year-less end equal to the start
+        vec![md_range(easter(Some(2020)), o, fixed(Some(9999), 12, 31), o)], // 2020 easter+
+        vec![md_range(easter(None), off_days(1), fixed(None, 12, 31), o)],  // easter +1 day+
     ]
 }
 
@@ -98,6 +100,7 @@ pub fn weekdays() -> Vec<Vec<WeekDayRange>> {
         vec![wd(Mon, Mon), hol(HolidayKind::Public, 0)],
         vec![hol(HolidayKind::Public, 0), wd(Sat, Sat)],
         vec![wd(Sat, Sun)],
+        vec![wd_nth(Mon, &[1, 2, 3, 4, 5, -1, -2, -3, -4, -5], 1)], // every nth, with an offset
     ]
 }
 
@@ -202,6 +205,24 @@ pub fn day_selectors(max_kinds: usize) -> Vec<DaySelector> {
         for w in ws.iter().skip(1) {
             for d in ds.iter().skip(1) {
                 out.push(DaySelector { week: w.clone(), weekday: d.clone(), ..Default::default() });
+            }
+        }
+    }
+    if max_kinds >= 3 {
+        // every combination of 3 and 4 kinds (index 0 of a dimension = selector absent)
+        for y in ys.iter() {
+            for m in ms.iter() {
+                if !y.is_empty() && !m.is_empty() && plain_single_year(y) {
+                    continue;
+                }
+                for w in ws.iter() {
+                    for d in ds.iter() {
+                        let kinds = [!y.is_empty(), !m.is_empty(), !w.is_empty(), !d.is_empty()].iter().filter(|x| **x).count();
+                        if kinds >= 3 && kinds <= max_kinds {
+                            out.push(DaySelector { year: y.clone(), monthday: m.clone(), week: w.clone(), weekday: d.clone() });
+                        }
+                    }
+                }
             }
         }
     }
